@@ -65,12 +65,12 @@ Print Assumptions C07_result.
 
 (* the concrete three-valued step used to validate implementation traces coincides with the abstract stop
    test whenever no point lies in the tolerance band *)
-Theorem C07_trace_step_is_model_step : forall minobj accum weighted st nsig eps2 pts w wm m f,
+Theorem C07_trace_step_is_model_step : forall minobj accum weighted st nsig rel eps2 pts w wm m f,
   let s2 := stat2_encl st weighted f (filt m (combine pts w)) in
   let c2 := (Qred (nsig * nsig * fst s2)%Q, Qred (nsig * nsig * snd s2)%Q) in
-  let bm := below_masks f c2 eps2 pts in
+  let bm := below_masks f c2 rel eps2 pts in
   fst bm = snd bm -> length m = length pts -> length wm = length pts ->
-  let r := clip_step3 minobj accum weighted st nsig eps2 pts w wm m f in
+  let r := clip_step3 minobj accum weighted st nsig rel eps2 pts w wm m f in
   let new := mand (if accum then m else wm) (fst bm) in
   snd (fst r) = new /\ snd r = new /\
   fst (fst r) = (if (count new <? minobj)%nat || meqb new m then SureStop else SureGo).
